@@ -5,5 +5,5 @@ for P in "$@"; do
   D=/verif/seeded/$P-$SUF
   mkdir -p $D && cp ${ROOT}_$P/patch.diff ${ROOT}_$P/demo.py ${ROOT}_$P/notes.txt $D/ 2>/dev/null
   echo "######## $P-$SUF"
-  /verif/tools/validate_seed.sh $P $D "testing/test_xspec.py -q" 2>&1 | cut -c1-230 | grep -v "^SKIP\|^XFAIL\|^XPASS\|KNOWN-FINDING\|^  File\|_thread.start\|RuntimeError\|^\.\.\.\|^--- tests\|^$" | grep -A1 "demo on\|check on\|failed\|VIOLATION\|UNDECIDED\|^OK\|rc=" | grep -v "^--$" | tail -12
+  /verif/tools/validate_seed.sh $P $D "${TESTS:-testing/test_xspec.py -q}" 2>&1 | cut -c1-230 | grep -v "^SKIP\|^XFAIL\|^XPASS\|KNOWN-FINDING\|^  File\|_thread.start\|RuntimeError\|^\.\.\.\|^--- tests\|^$" | grep -A1 "demo on\|check on\|failed\|VIOLATION\|UNDECIDED\|^OK\|rc=" | grep -v "^--$" | tail -12
 done
